@@ -6,6 +6,8 @@ TC = "core/ThreadContextManager.h"
 LM = "core/LoggerManager.h"
 MAC = "LogMacros.h"
 PFH = "backend/PatternFormatter.h"
+TFH = "backend/TimestampFormatter.h"
+SFH = "backend/StringFromTime.h"
 CASES = [
  # ---------------- C01
  dict(name="c01-commit_write-relaxed", ids=["C01"], rule="C01.R1b", subs=[(B, "_atomic_writer_pos.store(_writer_pos, std::memory_order_release)", "_atomic_writer_pos.store(_writer_pos, std::memory_order_relaxed)")]),
@@ -746,4 +748,37 @@ CASES = [
                           _options.log_level_short_codes.size());""", """    std::string_view const log_level_short_code =
       log_level_to_string(transit_event.macro_metadata->log_level(), _options.log_level_short_codes.data(),
                           _options.log_level_short_codes.size());""")]),
+
+ # ---------------- C13
+ dict(name="c13-prefix-repeated-specifier", ids=["C13"], rule="C13.R3c", subs=[(TFH, """      if (format_part_2.find(specifier_name[_additional_format_specifier]) != std::string::npos)
+      {
+        // the same specifier is repeated; the second one would be passed verbatim to strftime
+        QUILL_THROW(QuillError{"format specifiers %Qms, %Qus and %Qns can only be used once"});
+      }
+""", "")]),
+ dict(name="c13-us-zeros-short", ids=["C13"], rule="C13.R1d", subs=[(TFH, 'static constexpr std::string_view zeros{"000000"};', 'static constexpr std::string_view zeros{"00000"};')]),
+ dict(name="c13-us-divisor", ids=["C13"], rule="C13.R1d", subs=[(TFH, "uint32_t const extracted_us = extracted_ns / 1'000;", "uint32_t const extracted_us = extracted_ns / 10'000;")]),
+ dict(name="c13-H-index-off", ids=["C13"], rule="C13.R2c", subs=[(SFH, "_cached_indexes.emplace_back(_pre_formatted_ts.size() - 2, format_type::H);", "_cached_indexes.emplace_back(_pre_formatted_ts.size() - 3, format_type::H);")]),
+ dict(name="c13-case-M-prints-seconds", ids=["C13"], rule="C13.R2c", subs=[(SFH, """      case format_type::M:
+        fmtquill::format_to(&_pre_formatted_ts[index.first], "{:02}", minutes);""", """      case format_type::M:
+        fmtquill::format_to(&_pre_formatted_ts[index.first], "{:02}", seconds);""")]),
+ dict(name="c13-percent-X-check-removed", ids=["C13"], rule="C13.R3a", subs=[(SFH, """    if (_timestamp_format.find("%X") != std::string::npos)
+    {
+      QUILL_THROW(QuillError("`%X` as format modifier is not currently supported in format: " + _timestamp_format));
+    }
+""", "")]),
+ dict(name="c13-qns-selects-qus", ids=["C13"], rule="C13.R1c", subs=[(TFH, "      _additional_format_specifier = AdditionalSpecifier::Qns;", "      _additional_format_specifier = AdditionalSpecifier::Qus;")]),
+ dict(name="c13-distinct-check-dropped", ids=["C13"], rule="C13.R3b", subs=[(TFH, """      if (specifier_begin != std::string::npos)
+      {
+        QUILL_THROW(QuillError{"format specifiers %Qms, %Qus and %Qns are mutually exclusive"});
+      }
+
+      _additional_format_specifier = AdditionalSpecifier::Qns;""", """      _additional_format_specifier = AdditionalSpecifier::Qns;""")]),
+ dict(name="c13-I-noon-wrong", ids=["C13"], rule="C13.R2c", subs=[(SFH, """      case format_type::I:
+        fmtquill::format_to(&_pre_formatted_ts[index.first], "{:02}",
+                            (hours == 0 ? 12 : (hours > 12 ? hours - 12 : hours)));""", """      case format_type::I:
+        fmtquill::format_to(&_pre_formatted_ts[index.first], "{:02}", hours);""")]),
+ dict(name="c13-k-zero-padded", ids=["C13"], rule="C13.R2c", subs=[(SFH, 'fmtquill::format_to(&_pre_formatted_ts[index.first], "{:2}", hours);', 'fmtquill::format_to(&_pre_formatted_ts[index.first], "{:3}", hours);')]),
+ dict(name="c13-fraction-left-aligned", ids=["C13"], rule="C13.R1f", subs=[(TFH, "memcpy(&_formatted_date[_formatted_date.size() - extracted_ms_string.size()],", "memcpy(&_formatted_date[_formatted_date.size() - 9],")]),
+ dict(name="c13-modifier-missing-from-split", ids=["C13"], rule="C13.R2a", subs=[(SFH, 'std::array<std::string, 7> const modifiers{"%H", "%M", "%S", "%I", "%k", "%l", "%s"};', 'std::array<std::string, 6> const modifiers{"%H", "%M", "%S", "%I", "%k", "%s"};')]),
 ]
